@@ -91,6 +91,57 @@ TAG_TEMPLATES: list[str] = [
     "{{ l | round: m }}{{ l | divided_by: m }}{{ l | modulo: m }}",
     "{{ l | json: m }}{{ l | index: m }}",
 ]
+# found with tools/line_cov.py: library lines that no case of any check executed
+TAG_TEMPLATES += [
+    "{{ l | date: '%s' }}{{ 'now' | date: m }}{{ 'today' | date: '%s' }}{{ l | date: '%-d %e %:z %N %Q' }}",
+    "{{ '<script>a</script>b<style>c</style><SCRIPT>' | append: l | strip_html }}{{ l | prepend: '<style>' | strip_html }}",
+    "{% for i in l %}{{ forloop.nosuch }}{{ forloop[m] }}{% endfor %}{% tablerow i in l %}{{ tablerowloop.nosuch }}{{ tablerowloop[m] }}{% endtablerow %}",
+    "{{ l.0.1 }}{{ m.1.0.a }}{{ l.0.1.2.a }}{{ a.0.1 }}{{ a.1. }}",
+    "{{ l | nosuchfilter: m }}{{ l | nosuchfilter }}{% assign q = l | nosuch: k: m %}{{ q }}",
+    "{% assign locale = l %}{% assign input_locale = m %}{{ n | currency }}{{ n | decimal }}{{ n | unit: 'length-meter' }}{{ n | datetime }}",
+    "{% assign timezone = l %}{% assign input_timezone = m %}{{ n | datetime }}{{ 'March 1 2020' | datetime }}{{ '2020-01-01T00:00:00' | datetime: format: n }}",
+    "{% assign currency_code = l %}{% assign currency_format = m %}{{ n | currency }}{{ n | money }}{{ 5 | currency: group_separator: l }}",
+    "{% assign datetime_format = l %}{% assign decimal_format = m %}{{ n | datetime }}{{ n | decimal }}{{ 3.5 | decimal: group_separator: m }}",
+    "{% assign decimal_quantization = l %}{% assign unit_length = m %}{% assign unit_format = n %}{{ 2 | decimal }}{{ 2 | unit: 'length-meter' }}{{ 2 | unit: 'length-meter', denominator: l, denominator_unit: m }}",
+    "{% block b %}{{ block.nosuch }}{{ block[l] }}{{ block.super }}{% endblock %}",
+    "{{ l | sort_natural }}{{ l | sort_natural: m }}{{ l | default: m, allow_false: true }}{{ l | default: m, allow_false: false }}",
+]
+# malformed sources aimed at error branches of the expression parsers that the generated corpus did not reach
+EXTRA_MALFORMED: list[str] = [
+    "{% if (x %}a{% endif %}", "{% if x) %}a{% endif %}", "{% if (x and (a) %}a{% endif %}", "{% if ((x) %}a{% endif %}",
+    "{% if () %}a{% endif %}", "{% if x and %}a{% endif %}", "{% if x == %}a{% endif %}", "{% if == x %}a{% endif %}",
+    "{% if x or or a %}a{% endif %}", "{% if not %}a{% endif %}", "{% if x contains %}a{% endif %}", "{% if (x) (a) %}a{% endif %}",
+    "{% if x %}a{% else x %}b{% endif %}", "{% unless x %}a{% else x %}b{% endunless %}", "{% if x %}a{% else if a %}b{% endif %}",
+    "{% if x %}a{% elsif %}b{% endif %}", "{% if x %}a{% else %}b{% else %}c{% endif %}", "{% if x %}a{% else %}b{% elsif a %}c{% endif %}",
+    "{% doc %}unclosed", "{% doc %}x{% enddoc %}", "{% doc %}{% doc %}x{% enddoc %}", "{% doc %}{{ x }}{% if %}{% enddoc %}{{ x }}",
+    "{% assign 1 = 2 %}", "{% assign 'q' = 2 %}", "{% assign x.y = 1 %}", "{% assign x[0] = 1 %}", "{% assign = 1 %}", "{% assign q %}",
+    "{% capture 'q' %}a{% endcapture %}", "{% capture 1 %}a{% endcapture %}", "{% capture x.y %}a{% endcapture %}", "{% capture %}a{% endcapture %}",
+    "{% for 1 in a %}{% endfor %}", "{% for 'i' in a %}{% endfor %}", "{% for i.j in a %}{% endfor %}", "{% for i a %}{% endfor %}",
+    "{% for i in %}{% endfor %}", "{% for i in a limit %}{% endfor %}", "{% for i in a limit: %}{% endfor %}", "{% for i in a cols: 2 %}{% endfor %}",
+    "{% tablerow 1 in a %}{% endtablerow %}", "{% tablerow i in a cols %}{% endtablerow %}", "{% tablerow i in a reversed %}{{ i }}{% endtablerow %}",
+    "{% macro 'm' %}{% endmacro %}", "{% macro 1 %}{% endmacro %}", "{% macro m a.b %}{% endmacro %}", "{% macro m 1 %}{% endmacro %}",
+    "{% macro m a: %}{% endmacro %}", "{% call 5 %}", "{% call 'm' %}", "{% call m a.b: 1 %}", "{% call %}", "{% call m 1, %}{{ x }}",
+    "{% with 1: 2 %}{% endwith %}", "{% with a.b: 2 %}{% endwith %}", "{% with a %}{% endwith %}", "{% with a: %}{% endwith %}",
+    "{% liquid\n\n   \n echo x\n\n%}", "{% liquid echo x\n  # c\n\n#\necho a %}", "{% liquid\nif\necho x\nendif %}", "{% liquid %}",
+    "{% translate %}{{ x | upcase }}{% endtranslate %}", "{% translate %}{{ 'lit' }}{% endtranslate %}", "{% translate %}{{ 1 }}{% endtranslate %}",
+    "{% translate %}{% if x %}a{% endif %}{% endtranslate %}", "{% translate %}a{% plural %}{{ x.y }}{% endtranslate %}",
+    "{% translate %}{{ x.y }}{% plural %}b{% endtranslate %}", "{% translate %}a{% plural %}b{% plural %}c{% endtranslate %}",
+    "{% translate 1: 2 %}a{% endtranslate %}", "{% translate x %}a{% endtranslate %}", "{% translate %}{{ x[0] }}{% endtranslate %}",
+    "{{ x.0.1 }}", "{{ a.0.1.2 }}", "{{ a.1. }}", "{{ a..b }}", "{{ a.[0] }}", "{{ a[0 }}", "{{ a[] }}", "{{ a['b }}", "{{ .a }}", "{{ a. }}",
+    "{{ a[1.5] }}", "{{ a[(1..2)] }}", "{{ a[b c] }}", "{{ [a][ }}", "{{ a.b.'c' }}", "{{ a.-1 }}", "{{ a[-1].-1 }}",
+    "{{ x | }}", "{{ x | | upcase }}", "{{ x | upcase: }}", "{{ x | append: , }}", "{{ x | append: 'a' 'b' }}", "{{ x | append: k: }}",
+    "{{ x | 1 }}", "{{ x | 'f' }}", "{{ x | f.g }}", "{{ x if }}", "{{ x if a else }}", "{{ x if a else a || }}", "{{ x || upcase }}",
+    "{{ (1..) }}", "{{ (..2) }}", "{{ (1..2 }}", "{{ (1...2) }}", "{{ (a..b..c) }}", "{{ ('a'..'c') }}", "{{ (1.5..2.5) }}", "{{ ((1..2)..3) }}",
+    "{% cycle %}", "{% cycle : 1 %}", "{% cycle 'g': %}", "{% cycle 1 2 %}", "{% cycle 1, %}", "{% case %}{% endcase %}", "{% case x %}{% when %}a{% endcase %}",
+    "{% case x %}{% when 1, %}a{% endcase %}", "{% case x %}{% when 1 or %}a{% endcase %}", "{% case x %}junk{% when 1 %}a{% endcase %}",
+    "{% include %}", "{% include 'p' with %}", "{% include 'p' for %}", "{% include 'p' as %}", "{% include 'p', %}", "{% include 'p', v %}",
+    "{% render %}", "{% render p %}", "{% render 'p' with %}", "{% render 'p' for a as %}", "{% render 'p' for a as 1 %}", "{% render 'p', v: %}",
+    "{% extends %}", "{% extends p %}", "{% extends 'base' 'x' %}", "{% block %}{% endblock %}", "{% block 1 %}{% endblock %}", "{% block a b %}{% endblock %}",
+    "{% block a %}{% endblock b %}", "{% block a required x %}{% endblock %}", "{% increment %}", "{% increment 1 %}", "{% increment a.b %}", "{% decrement 'x' %}",
+    "{% echo %}", "{% echo x | %}", "{% ifchanged x %}a{% endifchanged %}", "{% raw x %}a{% endraw %}", "{% comment x %}a{% endcomment %}", "{% snippet %}a{% endsnippet %}",
+    "{% snippet 's' %}a{% endsnippet %}", "{% snippet s t %}a{% endsnippet %}", "{% snippet s %}a", "{% # %}", "{% #x\n y %}", "{%- -%}", "{{- -}}", "{{ }}", "{% %}",
+]
+EXTRA_MALFORMED = [m.replace("\\n", "\n") for m in EXTRA_MALFORMED]
 OPS = ["==", "!=", "<>", "<", ">", "<=", ">=", "contains"]
 for _op in OPS:
     TAG_TEMPLATES.append("{% if l " + _op + " m %}Y{% else %}N{% endif %}")
@@ -112,6 +163,10 @@ def env_for(which: str, mode: str = "strict") -> Any:
     if env is None:
         if which == "D":
             env = U.make_env(templates=G.PARTIALS, tolerance=U.MODES[mode])
+        elif which == "S":
+            # unknown filters are skipped instead of being an error; shorthand indexes on
+            env = U.make_env(flags=ALT_FLAGS, templates=G.PARTIALS, extra=True, tolerance=U.MODES[mode],
+                             strict_filters=False)
         else:
             flags = ALL_FLAGS if which == "A" else ALT_FLAGS
             env = U.make_env(flags=flags, templates=G.PARTIALS, extra=True, tolerance=U.MODES[mode],
@@ -172,6 +227,8 @@ class C02(Check):
         # malformed: shard by first fragment (and second for the deepest level)
         for f0 in range(nfr):
             sh.append(("M", k, f0))
+        for i in range(4):
+            sh.append(("MX", i, 4))
         nprog = 16 if tier == "quick" else 64
         for i in range(nprog):
             sh.append(("G", i, nprog))
@@ -186,6 +243,8 @@ class C02(Check):
             self.run_tag(shard[1], tier, res)
         elif kind == "M":
             self.run_malformed(shard[1], shard[2], tier, res)
+        elif kind == "MX":
+            self.run_malformed(0, 0, tier, res, sources=[m for j, m in enumerate(self.extra_malformed()) if j % shard[2] == shard[1]])
         else:
             self.run_programs(shard[1], shard[2], tier, res)
         return res
@@ -295,10 +354,12 @@ class C02(Check):
         pool = U.pool(tier)
         hs = holes(src)
         construct = f"tag-template:{idx}"
-        for env_key in ("A", "B"):
+        for env_key in ("A", "B", "S"):
             for mode in ("strict", "lax"):
                 if mode == "lax" and env_key == "B":
                     continue
+                if env_key == "S" and "nosuch" not in src and ".0.1" not in src:
+                    continue  # strict_filters=False only matters where an unknown filter is applied
                 env = env_for(env_key, mode)
                 p = quiet(lambda: U.parse(env, src))
                 if not p.ok:
@@ -322,12 +383,25 @@ class C02(Check):
             for combo in itertools.product(fr, repeat=n):
                 yield first + " " + " ".join(combo)
 
-    def run_malformed(self, k: int, f0: int, tier: str, res: Result) -> None:
+    def extra_malformed(self) -> list[str]:
+        """Each aimed source alone, followed by valid text, inside a block, and inside a {% liquid %} tag."""
+        out: list[str] = []
+        for m in EXTRA_MALFORMED:
+            out += [m, m + "{{ x }}tail", "{% if x %}" + m + "{% endif %}after", "{% for i in a %}" + m + "{% endfor %}"]
+            if m.startswith("{% ") and m.endswith(" %}") and m.count("{%") == 1 and "\n" not in m:
+                out.append("{% liquid " + m[3:-3] + "\necho x %}")
+        return out
+
+    def run_malformed(self, k: int, f0: int, tier: str, res: Result, sources: Any = None) -> None:
         envs = {(e, m): env_for(e, m) for e in ("A",) for m in ("strict", "warn", "lax")}
         envs[("D", "strict")] = env_for("D", "strict")
         envs[("D", "lax")] = env_for("D", "lax")
+        if sources is not None:
+            envs[("B", "strict")] = env_for("B", "strict")
+            envs[("S", "strict")] = env_for("S", "strict")
+            envs[("S", "lax")] = env_for("S", "lax")
         data = dict(G.DATA_SETS[0][1])
-        for src in self.malformed_sources(k, f0):
+        for src in (sources if sources is not None else self.malformed_sources(k, f0)):
             for (ek, mode), env in envs.items():
                 p = quiet(lambda: U.parse(env, src))
                 if not p.ok:
